@@ -464,12 +464,13 @@ class PixelRenderer(BaseRenderer):
         jax.numpy.array
             rendered pointsource model
         """
-        dx = params["xc"] - self.psf_shape[0] / 2.0
-        dy = params["yc"] - self.psf_shape[1] / 2.0
+        # offset of the stamp's geometric centre: columns follow x, rows follow y
+        dx = params["xc"] - (self.psf_shape[1] - 1) / 2.0
+        dy = params["yc"] - (self.psf_shape[0] - 1) / 2.0
 
         shifted_psf = jax.scipy.ndimage.map_coordinates(
             self.pixel_PSF * params["flux"],
-            [self.X - dx, self.Y - dy],
+            [self.Y - dy, self.X - dx],
             order=1,
             mode="constant",
         )
